@@ -141,6 +141,8 @@ func TransferCorpus() []Conv {
 		{"lookalikes", "a\n.\nb\r\n.\nc\n.\r\nd\r.\re\r\n.\r\n"},
 		{"empty", ".\r\n"},
 		{"crcrlf", "x\r\r\n.\r\n"},
+		// lines that would be the end marker if some octet were ignored: NUL, 0x80, 0xFF, DEL next to the dot
+		{"lookalikes-binary", "a\r\n.\x00\r\n\x00.\r\n.\x00\x00\r\n.\xff\r\n.\x80\r\n.\x7f\r\nb\r\n.\r\n"},
 	}
 	for _, mode := range corpusModes {
 		for _, bd := range bodies {
